@@ -16,3 +16,4 @@ import GeoVerif.Properties.C04
 import GeoVerif.Properties.C11
 import GeoVerif.Properties.C15
 import GeoVerif.Properties.C16
+import GeoVerif.Properties.C17
